@@ -469,7 +469,13 @@ func buildModels(P *Program) map[string]Model {
 			lim := m.ctx.Const(uint64(m.cfg.MaxAlloc), 64)
 			m.monitor(m.ctx.Ule(size, lim), "monitor", "M-alloc: requested allocation size can exceed 4 MiB on this path (length not bounded by the input)")
 		}
-		n := int(m.concretize(size, "mallocgc size"))
+		var symSize *Term
+		n := 0
+		if !size.IsConst() && m.cfg.SymAlloc {
+			symSize = size // keep the size symbolic: physical storage grows on demand, bounds are checked by the solver
+		} else {
+			n = int(m.concretize(size, "mallocgc size"))
+		}
 		if n > m.cfg.MaxAlloc {
 			m.unsupported("mallocgc(%d) too large for the engine", n)
 		}
@@ -487,6 +493,10 @@ func buildModels(P *Program) map[string]Model {
 			n = 0
 		}
 		b := m.newBlock(n, align, "mallocgc")
+		if symSize != nil {
+			b.sizeTerm = symSize
+			m.heap.next += uint64(m.cfg.MaxAlloc) // reserve the address range
+		}
 		b.owner = m.owner
 		m.allocSeq++
 		b.seq = m.allocSeq
